@@ -221,6 +221,9 @@ func runC13(p *P, r *R) {
 	// pending bytes are never dropped, however the reads were cut (window discipline of the event connection,
 	// shared with C18 R18.4)
 	c18Window(p, r, "R13.7")
+	// R13.8 the effect of an event does not depend on how the bytes were split into reads: nothing keeps a reference
+	// into the connection's reused read buffer beyond the event (shared with C06 R06.5 / C18 R18.6)
+	noEscapeOfEventBuffer(p, r, "R13.8")
 }
 
 func describeOp(p *P, in ssa.Instruction) string {
